@@ -285,6 +285,58 @@ def _scenario(variant, N, S, R, start, length, rng, p_drop, p_dup, p_timeout, sh
         rig.close()
 
 
+def _second_transfer(N, S, R, start, length, rng):
+    """a history of two transfers on the same blocking structure: the first receives its first k segments and
+    then loses everything until its retries are spent (the client's copy stays untouched); the second runs
+    without faults.  -> the log of the SECOND transfer (validated like any single transfer), or None"""
+    from ..transfer import SyncRig
+    spa, old = blocks(N, rng, coded=False)
+    rig = SyncRig(N, S, R, start, length, spa, old)
+    try:
+        k = rng.choice([1, 2])
+        guard = 0
+        delivered = 0
+        while not rig.done() and guard < 400:
+            guard += 1
+            rig.collect()
+            us = [d for d in rig.bag if d["m"]["t"] == "U"]
+            vs = sorted([d for d in rig.bag if d["m"]["t"] != "U"], key=lambda x: x["m"].get("idx", 0))
+            if us and delivered == 0:
+                rig.serve()
+                continue
+            if us:
+                rig.drop({"t": "U"})
+                continue
+            if vs:
+                if delivered < k and vs[0]["m"].get("idx") == delivered and vs[0]["m"].get("next") != 0:
+                    rig.deliver(vs[0]["m"])
+                    delivered += 1
+                else:
+                    rig.drop(vs[0]["m"])
+                continue
+            rig.timeout()
+        if not rig.done() or rig.ok() or rig.block() != old:
+            return None
+        rig.restart(start, length)
+        guard = 0
+        while not rig.done() and guard < 400:
+            guard += 1
+            rig.collect()
+            us = [d for d in rig.bag if d["m"]["t"] == "U"]
+            vs = sorted([d for d in rig.bag if d["m"]["t"] != "U"], key=lambda x: x["m"].get("idx", 0))
+            if us:
+                rig.serve()
+            elif vs:
+                rig.deliver(vs[0]["m"])
+            else:
+                rig.timeout()
+        rig.collect()
+        return {"req": {"start": start, "len": length}, "ev": rig.log, "variant": "sync", "faults": 0,
+                "ok": bool(rig.ok()), "sent": rig.sent, "after_failed_transfer": True}
+    finally:
+        rig.close()
+
+
 def overlap_witness(rng):
     """OverlapRefresh.tla's counterexample on the real blocking structure and socket: two refresh requests
     (different ranges) in flight at once, the first segment of A's answer, then the final segment of B's.
@@ -414,6 +466,17 @@ def run(ctx):
                     ctx.violation(sig, {"start": start, "len": length, "N": N, "S": S,
                                         "note": "in-order, loss-free transfer against the bundled simulator failed"})
     logs += ff
+    # histories: a fault-free transfer that follows a FAILED one on the same blocking structure
+    for _ in range(8 if quick else 80):
+        length = rng.choice([80, 117, 200, 400])
+        lg = _second_transfer(N, S, 2, rng.randrange(0, N - length), length, rng)
+        if lg is not None:
+            lg["R"] = 2
+            lg["faultfree"] = True
+            logs.append(lg)
+            if not lg["ok"]:
+                ctx.violation({"clause": "fault-free-success", "variant": "sync", "after_failed_transfer": True},
+                              {"start": lg["req"]["start"], "len": lg["req"]["len"]})
     groups = collections.defaultdict(list)
     for lg in logs:
         groups[(lg["variant"], lg["R"])].append(lg)
